@@ -20,7 +20,7 @@ BUILTIN_NAMES = {
     "sum", "type", "id", "hasattr", "getattr", "format", "divmod", "open",
 }
 BUILTIN_TYPES = {"object", "bytes", "Path", "deque", "defaultdict", "ItemsView"}
-EXC_NAMES = {"ValueError", "KeyError", "IndexError", "TypeError", "Exception", "AttributeError",
+EXC_NAMES = {"ValueError", "KeyError", "IndexError", "TypeError", "Exception", "BaseException", "AttributeError",
              "ZeroDivisionError", "OverflowError", "AssertionError", "RuntimeError",
              "UnicodeDecodeError", "StopIteration", "OSError", "FileNotFoundError"}
 
